@@ -68,7 +68,9 @@ Definition request_of (l : list tok) : option request :=
       match method_of m, version_of v, headers_of hs with
       | Some m', Some v', Some hs' =>
           Some {| rq_method := m'; rq_version := v';
-                  rq_uri := {| u_scheme := scheme; u_auth := auth; u_pq := pq |};
+                  (* http::Uri reports "/" for an empty path after an authority *)
+                  rq_uri := {| u_scheme := scheme; u_auth := auth;
+                               u_pq := match pq with [] => [47] | _ => pq end |};
                   rq_headers := hs' |}
       | _, _, _ => None
       end
